@@ -105,7 +105,8 @@ def tilde(verdict, res, variant_exes, tag="tilde"):
     """cfg_tilde_expand on every form; under ASan and (plain build) under valgrind for uninitialised reads"""
     exp = res.extra["TILDE"][0]
     names = sorted(exp.keys())
-    lines = ["schema S", "o str s 0 0 d", "endschema", "init c1 S 0", "dump 0"]
+    # (HOME points elsewhere: the home directory comes from the account database, not from the environment)
+    lines = ["schema S", "o str s 0 0 d", "endschema", "env set HOME %s" % enc("/nonexistent-home-from-env"), "init c1 S 0", "dump 0"]
     for nm in names:
         lines.append("tilde %s" % enc(nm))
     for nm in names:
